@@ -27,7 +27,12 @@ Section Inst.
   Definition sig_len0_i (s : csig) : bool := match s with CEmpty => true | _ => false end.
   Definition msg_of_i (c : cert) : cert := c.
   (* FastAggregateVerify: true iff the signature is the aggregate of one signature per listed key, all over m *)
+  (* the compressed point at infinity (0xc0, 47 zero bytes) is not a valid public key; pkg/crypto validates every selected
+     key before FastAggregateVerify (b830e1d), so [fav] = "all keys valid and FastAggregateVerify" *)
+  Definition key_valid_i (k : key) : bool :=
+    negb (match k with 192 :: t => forallb (N.eqb 0) t | _ => false end).
   Definition fav_i (ks : list key) (m : cert) (s : csig) : bool :=
+    forallb key_valid_i ks &&
     match s with
     | CSig l => negb (Nat.eqb (length ks) 0) && forallb (fun p => cert_eqb (snd p) m) l &&
                 keys_eqb (sort_by (fun k => k) ks) (sort_by (fun k => k) (map (fun p => key_of (fst p)) l))
@@ -95,6 +100,8 @@ Section Inst.
     match chain_at (e_chain e) (ac_height a), get_params e (ac_height a) with
     | Some hd, Some p =>
         let signers := spec_signers (p_validators p) (ac_bits a) in
+        (* exactly ceil(n/8) bytes of bitmap (C06_verify_sound: length (ac_bits a) = bits_len (length validators)) *)
+        Nat.eqb (length (ac_bits a)) (bits_len (length (p_validators p))) &&
         fav_i (map v_key signers) (h_cert hd) (ac_sig a) &&
         (p_threshold p <=? sumN (map v_weight signers)) &&
         (e_mhc e <? ac_height a) && (ac_height a <=? e_mhp e) &&
@@ -187,13 +194,11 @@ Section Inst.
     | OBroadcast g ng =>
         let q := mkpool g ng in
         let tip := fold_left (fun a kh => N.max a (fst kh)) (e_chain e) 0 in
-        let rh := match chain_at (e_chain es) (e_mhp es) with Some fin => h_ac_height fin | None => 0 end in
-        (* declaratively: what may be dropped is decided by the height alone (broadcast_cleanup_spec) *)
-        let keep (c : sc) := (rh <? sc_height c) &&
-                             (((sub32 (e_mhp es) 100 <=? sc_height c) && (sc_height c <? e_mhp es)) ||
-                              existsb (fun kp => fst kp =? u32 (sc_height c + 1)) (e_params e)) in
+        (* the property only says what may be IN the pool: nothing enters, nothing is duplicated, what stays is still valid
+           (which commits are dropped — incl. the uint32 wrap of maxHeightPrecommited-100 — is model agreement only) *)
         (code (pool_eqb (broadcast_certificate e tip false p) g ng)
-              (scs_same (all q) (filter keep (all p))), q)
+              (scs_incl (all q) (all p) && (negb (nodup_b (all p)) || nodup_b (all q)) &&
+               (negb (forallb (commit_valid es) (all p)) || forallb (commit_valid es) (all q))), q)
     | OUpgrade cs g ng =>
         let q := mkpool g ng in
         (code (pool_eqb (upgrade p cs) g ng) (scs_same (all q) (all p)), q)
